@@ -18,6 +18,7 @@ import (
 	"github.com/ucan-wg/go-ucan/pkg/policy/selector"
 
 	"verif/harness/h"
+	_ "verif/harness/warm"
 	"verif/harness/sel"
 	"verif/harness/val"
 )
